@@ -392,6 +392,50 @@ theorem c16_run_all_stopped {U : List String} (hU : IdsOk U) (steps : List Step)
   rw [hnil'] at hK
   simp [Planner.get] at hK
 
+/-- **... also when the last update is cut short** by the end of the run context (`executeActions` gives up during
+`restartDelay`, after its stop phase): the entries it leaves without a runner are dropped by the shutdown, and still no
+instance ever started is live when `Run()` returns. -/
+theorem c16_run_all_stopped_cut {U : List String} (hU : IdsOk U) (steps : List Step) (hs : ∀ s ∈ steps, StepOk U s)
+    (last : List (String × Nat)) (hl : ∀ k ∈ last.map (·.1), k ∈ U) :
+    (runClusterCut steps last).entries = [] ∧ ∀ i, ¬ Live (runClusterCut steps last).effects i := by
+  have hinv := c16_every_sequence hU steps hs
+  have hw : Wf (runSteps steps { entries := [], effects := [], next := 1 }).entries last :=
+    wf_of_universe hU hinv.committed.nodup hinv.keys hl
+  have hacc := acc_applyUpdateCut hinv.acc hw
+  -- the state the cut update leaves: distinct ids from the universe
+  have hndc : (keysOf (applyUpdateCut (runSteps steps { entries := [], effects := [], next := 1 }).entries last
+      (runSteps steps { entries := [], effects := [], next := 1 }).next).entries).Nodup := by
+    simp only [applyUpdateCut]
+    apply nodup_commit
+    rw [keysOf_stopPhase]; exact nodup_buildPending _ _
+  have hkeys : ∀ k ∈ keysOf (applyUpdateCut (runSteps steps { entries := [], effects := [], next := 1 }).entries last
+      (runSteps steps { entries := [], effects := [], next := 1 }).next).entries, k ∈ U := by
+    intro k hk
+    rcases keys_cut_sub hk with h1 | h1
+    · exact hinv.keys k h1
+    · exact hl k h1
+  have hw2 := wf_of_universe (des := []) hU hndc hkeys (by simp)
+  have hnil : (runClusterCut steps last).entries = [] := shutdown_entries_nil _ _
+  refine ⟨hnil, ?_⟩
+  intro i hl'
+  have hacc2 := acc_applyUpdate (fate := fun _ => Fate.ok) hacc hw2
+  have hlive : Live ((runSteps steps { entries := [], effects := [], next := 1 }).effects
+      ++ (applyUpdateCut (runSteps steps { entries := [], effects := [], next := 1 }).entries last
+          (runSteps steps { entries := [], effects := [], next := 1 }).next).effects
+      ++ (shutdown (applyUpdateCut (runSteps steps { entries := [], effects := [], next := 1 }).entries last
+          (runSteps steps { entries := [], effects := [], next := 1 }).next).entries
+          (applyUpdateCut (runSteps steps { entries := [], effects := [], next := 1 }).entries last
+          (runSteps steps { entries := [], effects := [], next := 1 }).next).next).effects) i := hl'
+  have := (hacc2.live i).mp hlive
+  obtain ⟨K, e, hK, _⟩ := this
+  have hnil' := shutdown_entries_nil (applyUpdateCut (runSteps steps { entries := [], effects := [], next := 1 }).entries last
+      (runSteps steps { entries := [], effects := [], next := 1 }).next).entries
+      (applyUpdateCut (runSteps steps { entries := [], effects := [], next := 1 }).entries last
+      (runSteps steps { entries := [], effects := [], next := 1 }).next).next
+  unfold shutdown at hnil'
+  rw [hnil'] at hK
+  simp [Planner.get] at hK
+
 /-- the hypotheses are satisfiable by a non-trivial history and the conclusions are computed there: three maps over
 `a`, `b`, `c` with a changed configuration, a removal, a factory error and a server that never becomes ready -/
 example :
